@@ -91,11 +91,50 @@ Theorem C34_integer_const_found_iff_declared : forall w m md nm, wf_world w -> m
 Proof. exact integer_const_found_iff. Qed.
 Print Assumptions C34_integer_const_found_iff_declared.
 
-(* structs/unions: whatever "struct nm" resolves to is a real non-external definition of that kind *)
-Theorem C34_resolve_struct_sound : forall w m nm un d, wf_world w -> m <= 100 ->
+(* ---- statements for ANY world: no acyclicity, no depth bound, dangling include indices allowed *)
+
+(* the recursion fuel of the model (cap_fuel = 103) is never exhausted: the code's recursion cap (100) always
+   fires first.  OutOfFuel is the model's own outcome, distinct from the RuntimeError of the cap, so a fuel bug
+   cannot hide behind the cap. *)
+Theorem C34_dfs_never_out_of_fuel :
+  forall (A : Type) (own : nat -> module -> option (fres A)) (descend : nat -> module -> bool),
+  (forall i m, own i m <> Some (Error OutOfFuel)) ->
+  forall f w included r, r <= 101 -> 102 <= f + r ->
+  dfs own descend f w included r <> Error OutOfFuel.
+Proof. exact @dfs_never_out_of_fuel. Qed.
+Print Assumptions C34_dfs_never_out_of_fuel.
+
+Theorem C34_lookups_never_out_of_fuel : forall w m nm un,
+  resolve_struct w m nm un <> Error OutOfFuel /\
+  integer_const w m nm <> Error OutOfFuel /\
+  lib_getattr w m nm <> Error OutOfFuel.
+Proof. exact lookups_never_out_of_fuel. Qed.
+Print Assumptions C34_lookups_never_out_of_fuel.
+
+(* every outcome of the search other than "not found" is some module's own answer, or the RuntimeError of the cap *)
+Theorem C34_dfs_outcome_origin :
+  forall (A : Type) (own : nat -> module -> option (fres A)) (descend : nat -> module -> bool) f w included r x,
+  dfs own descend f w included r = x -> x <> NotFound ->
+  x = Error RuntimeError \/ x = Error OutOfFuel \/ exists i m1, nth_error w i = Some m1 /\ own i m1 = Some x.
+Proof. exact @dfs_outcome_origin. Qed.
+Print Assumptions C34_dfs_outcome_origin.
+
+(* structs/unions: whatever "struct nm" resolves to is a real non-external definition of that kind — on any
+   world, from any module *)
+Theorem C34_resolve_struct_sound : forall w m nm un d,
   resolve_struct w m nm un = Found d -> defines w (fst d) (snd d) nm un.
-Proof. exact resolve_struct_sound. Qed.
+Proof. exact resolve_struct_sound_any. Qed.
 Print Assumptions C34_resolve_struct_sound.
+
+(* ffi.integer_const fails only with AttributeError (not found), RuntimeError (the cap) or FFIError because
+   some module declares the name as a function / variable / non-integer constant *)
+Theorem C34_integer_const_error_origin : forall w m nm e, integer_const w m nm = Error e ->
+  e = AttributeError \/ e = RuntimeError \/
+  (e = FFIError /\ exists j mj, nth_error w j = Some mj /\ lookup nm (globals mj) = Some GOther).
+Proof. exact integer_const_error_origin. Qed.
+Print Assumptions C34_integer_const_error_origin.
+
+(* ---- back to acyclic include graphs of depth <= 100, where the search equals the unbounded specification *)
 
 (* sharing: when module d is the only definer of "struct nm" and the including modules re-declare it
    as external (what the recompiler emits: [closed]), every module that transitively includes d
@@ -174,5 +213,9 @@ Fixpoint chain (n : nat) : world :=
   end.
 Example C34_example_cap :
   integer_const (chain 100) 100 [75]%N = Found 7%Z /\
-  integer_const (chain 102) 102 [75]%N = Error RuntimeError.
-Proof. vm_compute. split; reflexivity. Qed.
+  integer_const (chain 101) 101 [75]%N = Found 7%Z /\
+  integer_const (chain 102) 102 [75]%N = Error RuntimeError /\
+  (* a module that includes itself, and a dangling include index: the cap, resp. "not found" — never OutOfFuel *)
+  integer_const [mkModule [] [] [0] false] 0 [75]%N = Error RuntimeError /\
+  integer_const [mkModule [] [] [5] false] 0 [75]%N = Error AttributeError.
+Proof. vm_compute. repeat split; reflexivity. Qed.
